@@ -8,6 +8,9 @@ import ManifModel.Groups.SO2
 import ManifModel.Groups.SE2
 import ManifModel.Groups.SO3
 import ManifModel.Groups.SE3
+import ManifModel.Groups.SE23
+import ManifModel.Groups.Rn
+import ManifModel.Generated.Generators
 namespace Manif
 open Scalar
 
@@ -87,6 +90,18 @@ def runBase {G T J} (o : GroupOps K G T J) (c : Codec K G T J)
   | "ljacinv" => do let (t, _) ← takeT c args; pure (.ok (c.jTo (o.ljacinv t)))
   | "smallAdj" => do let (t, _) ← takeT c args; pure (.ok (c.jTo (o.smallAdj t)))
   | _ => none
+
+/-- `Scalar(v)` for an integer literal of a generated table. -/
+def ofInt (v : Int) : K := if v < 0 then -(nat v.natAbs) else nat v.natAbs
+
+/-- `GeneratorEvaluator::run(i)` for the groups whose generators are switch tables; the tables
+    are regenerated from /repo (Generated/Generators.lean).  A negative `int` index becomes a
+    huge `unsigned` and falls in the `default:` case. -/
+def genFromTable (tbl : List (List Int)) (err : Err) (i : Int) : Except Err (List K) :=
+  if i < 0 then .error err else
+  match tbl[i.toNat]? with
+  | some row => .ok (row.map ofInt)
+  | none => .error err
 
 /-! ### per-group tables -/
 
@@ -244,7 +259,7 @@ def runSE2 (dbg : Bool) (op : String) (mask : Nat) (args : List K) (ints : List 
   | "hat", [a, b, c], _ => some (.ok (SE2T.hat ⟨a, b, c⟩).toList)
   | "transform", [a, b, c, d], _ => some (.ok (SE2.transform ⟨a, b, c, d⟩).toList)
   | "rotation", [a, b, c, d], _ => some (.ok (SE2.rotation ⟨a, b, c, d⟩).toList)
-  | "generator", [], [i] => some ((SE2T.generator (K := K) i).map M3.toList)
+  | "generator", [], [i] => some (genFromTable Generated.SE2GenTable Generated.SE2GenErr i)
   | "innerWeights", [], _ => some (.ok (SE2T.innerWeights (K := K)).toList)
   | "normalize", [a, b, c, d], _ => some (.ok (SE2.normalize ⟨a, b, c, d⟩).toList)
   | "make", [a, b, c, d], _ => some ((SE2.make dbg a b c d).map SE2.toList)
@@ -264,7 +279,7 @@ def runSO3 (dbg : Bool) (op : String) (mask : Nat) (args : List K) (ints : List 
   | "hat", [a, b, c], _ => some (.ok (SO3T.hat ⟨⟨a, b, c⟩⟩).toList)
   | "transform", [a, b, c, d], _ => some (.ok (SO3.transformRows ⟨⟨a, b, c, d⟩⟩))
   | "rotation", [a, b, c, d], _ => some (.ok (SO3.rotation ⟨⟨a, b, c, d⟩⟩).toList)
-  | "generator", [], [i] => some ((SO3T.generator (K := K) i).map M3.toList)
+  | "generator", [], [i] => some (genFromTable Generated.SO3GenTable Generated.SO3GenErr i)
   | "normalize", [a, b, c, d], _ => some (.ok (SO3.normalize ⟨⟨a, b, c, d⟩⟩).toList)
   | "make", [a, b, c, d], _ => some ((SO3.make dbg ⟨a, b, c, d⟩).map SO3.toList)
   | _, _, _ => runBase so3Ops so3Codec dbg op mask args
@@ -283,13 +298,105 @@ def runSE3 (dbg : Bool) (op : String) (mask : Nat) (args : List K) (ints : List 
       some (.ok (SE3.transformRows ⟨⟨a, b, c⟩, ⟨qx, qy, qz, qw⟩⟩))
   | "rotation", [a, b, c, qx, qy, qz, qw], _ =>
       some (.ok (SE3.rotation ⟨⟨a, b, c⟩, ⟨qx, qy, qz, qw⟩⟩).toList)
-  | "generator", [], [i] => some (SE3T.generator (K := K) i)
+  | "generator", [], [i] => some (genFromTable Generated.SE3GenTable Generated.SE3GenErr i)
   | "normalize", [a, b, c, qx, qy, qz, qw], _ =>
       some (.ok (SE3.normalize ⟨⟨a, b, c⟩, ⟨qx, qy, qz, qw⟩⟩).toList)
   | "make", [a, b, c, qx, qy, qz, qw], _ =>
       some ((SE3.make dbg ⟨a, b, c⟩ ⟨qx, qy, qz, qw⟩).map SE3.toList)
   | "fillQ", [a, b, c, d, e, f], _ => some (.ok (SE3T.fillQ ⟨a, b, c⟩ ⟨d, e, f⟩).toList)
   | _, _, _ => runBase se3Ops se3Codec dbg op mask args
+
+def se23Ops : GroupOps K (SE23 K) (SE23T K) (M9 K) where
+  exp := SE23T.exp
+  expJ := SE23T.expJ
+  log := SE23.log
+  logJ := SE23.logJ
+  compose := SE23.compose
+  composeJa := SE23.composeJa
+  composeJb := SE23.composeJb
+  inverse := SE23.inverse
+  inverseJ := SE23.inverseJ
+  adj := SE23.adj
+  rjac := SE23T.rjac
+  ljac := SE23T.ljac
+  rjacinv := SE23T.rjacinv
+  ljacinv := SE23T.ljacinv
+  smallAdj := SE23T.smallAdj
+  tneg := SE23T.neg
+  jmul := M9.mul
+  jneg := M9.neg
+  jone := M9.one
+
+def se23Codec : Codec K (SE23 K) (SE23T K) (M9 K) where
+  rep := 10
+  dof := 9
+  gOf := fun l => match l with
+    | [a, b, c, x, y, z, w, d, e, f] => some ⟨⟨a, b, c⟩, ⟨x, y, z, w⟩, ⟨d, e, f⟩⟩ | _ => none
+  gTo := SE23.toList
+  tOf := fun l => match l with
+    | [a, b, c, d, e, f, g, h, i] => some ⟨⟨a, b, c⟩, ⟨d, e, f⟩, ⟨g, h, i⟩⟩ | _ => none
+  tTo := SE23T.toList
+  jTo := M9.toList
+
+def runSE23 (dbg : Bool) (op : String) (mask : Nat) (args : List K) (ints : List Int) :
+    Option (Except Err (List K)) :=
+  let w0 := mask % 2 == 1
+  let w1 := (mask / 2) % 2 == 1
+  match op, ints with
+  | "generator", [i] => if args.isEmpty then some (genFromTable Generated.SE23GenTable Generated.SE23GenErr i) else none
+  | _, _ =>
+  match se23Codec.gOf (args.take 10), se23Codec.tOf (args.take 9) with
+  | some X, _ =>
+    match op, args.drop 10 with
+    | "act", [x, y, z] =>
+        let v : V3 K := ⟨x, y, z⟩
+        some (.ok ((X.act v).toList ++ (if w0 then X.actJm v else []) ++
+          (if w1 then (X.actJv v).toList else [])))
+    | "transform", [] => some (.ok X.transformRows)
+    | "rotation", [] => some (.ok X.rotation.toList)
+    | "normalize", [] => some (.ok X.normalize.toList)
+    | "make", [] => some ((SE23.make dbg X.t X.q X.v).map SE23.toList)
+    | _, _ => runBase se23Ops se23Codec dbg op mask args
+  | none, some t =>
+    match op, args.drop 9 with
+    | "hat", [] => some (.ok t.hatRows)
+    | _, _ => runBase se23Ops se23Codec dbg op mask args
+  | none, none => runBase se23Ops se23Codec dbg op mask args
+
+/-- Rn for any n: everything is list arithmetic; Jacobians are constant. -/
+def runRn (n : Nat) (_dbg : Bool) (op : String) (mask : Nat) (args : List K) (ints : List Int) :
+    Option (Except Err (List K)) :=
+  let w0 := mask % 2 == 1
+  let w1 := (mask / 2) % 2 == 1
+  let I : List K := (Rn.identRows n).flatten
+  let Z : List K := (Rn.zeroRows n).flatten
+  let nI : List K := (Rn.negIdentRows n).flatten
+  let opt (b : Bool) (l : List K) : List K := if b then l else []
+  let a := args.take n
+  let b := args.drop n
+  let one := args.length == n
+  let two := args.length == 2 * n
+  match op with
+  | "exp" => if one then some (.ok (Rn.exp a ++ opt w0 I)) else none
+  | "log" => if one then some (.ok (Rn.log a ++ opt w0 I)) else none
+  | "inverse" => if one then some (.ok (Rn.inverse a ++ opt w0 nI)) else none
+  | "compose" => if two then some (.ok (Rn.compose a b ++ opt w0 I ++ opt w1 I)) else none
+  | "act" => if two then some (.ok (Rn.act a b ++ opt w0 I ++ opt w1 I)) else none
+  | "rplus" => if two then some (.ok (Rn.compose a (Rn.exp b) ++ opt w0 I ++ opt w1 I)) else none
+  | "lplus" => if two then some (.ok (Rn.compose (Rn.exp b) a ++ opt w0 I ++ opt w1 I)) else none
+  | "between" => if two then some (.ok (Rn.compose (Rn.inverse a) b ++ opt w0 nI ++ opt w1 I)) else none
+  | "rminus" => if two then some (.ok (Rn.log (Rn.compose (Rn.inverse b) a) ++ opt w0 I ++ opt w1 nI)) else none
+  | "lminus" => if two then some (.ok (Rn.log (Rn.compose a (Rn.inverse b)) ++ opt w0 I ++ opt w1 nI)) else none
+  | "adj" => if one then some (.ok I) else none
+  | "rjac" | "ljac" | "rjacinv" | "ljacinv" => if one then some (.ok I) else none
+  | "smallAdj" => if one then some (.ok Z) else none
+  | "transform" => if one then some (.ok (Rn.transformRows a)) else none
+  | "hat" => if one then some (.ok (Rn.hatRows a)) else none
+  | "make" => if one then some (.ok a) else none
+  | "generator" => match ints with
+      | [i] => if args.isEmpty then some (Rn.generator n i) else none
+      | _ => none
+  | _ => none
 
 /-- dispatch on the group name. -/
 def runGroup (grp : String) (dbg : Bool) (op : String) (mask : Nat) (args : List K)
@@ -299,6 +406,11 @@ def runGroup (grp : String) (dbg : Bool) (op : String) (mask : Nat) (args : List
   | "SE2" => runSE2 dbg op mask args ints
   | "SO3" => runSO3 dbg op mask args ints
   | "SE3" => runSE3 dbg op mask args ints
+  | "SE_2_3" => runSE23 dbg op mask args ints
+  | "R1" => runRn 1 dbg op mask args ints
+  | "R2" => runRn 2 dbg op mask args ints
+  | "R3" => runRn 3 dbg op mask args ints
+  | "R5" => runRn 5 dbg op mask args ints
   | _ => none
 
 end Manif
